@@ -2,10 +2,13 @@
 handler adapters (vf/harness/adapters.py maps observer callbacks to the same events), so the SAME monitors of RSocket.tla judge them - the
 application-level projection of an adapter run must satisfy exactly what a core-API run must.  Extra clauses: C20.batch_is_request_limit,
 C20.factory_asked_exactly_credited; C01/C06/C07/C09 clause failures in these families count as C20 violations."""
-from . import conn, families, mc
+from . import conn, families, mc, sourcemodel, demandmodel
 
 
 def run(v):
+    # the adapters' two halves in isolation: observable-backed publishers (Source.tla) and rate-limited subscribers (Demand.tla)
+    sourcemodel.check(v, 'C20')
+    demandmodel.check(v, 'C20')
     mc.run_for(v, 'C20')
     scns, res = conn.check(v, 'C20', families.FAMILIES['C20'], extra_clause_props=('C01', 'C06', 'C07', 'C09', 'C11'))
     v.coverage['versions'] = sorted(set(s['opts'].get('adapters') for s in scns))
